@@ -109,6 +109,7 @@ def hyp_all(groups, name, pred, out):
 #  z3 translation
 
 CROSSCHECK = [int(os.environ.get('VERIF_CROSSCHECK', '0') or 0)]    # seconds of cvc5 budget per proved leaf (0 = off)
+CROSS_JOB_BUDGET = [float(os.environ.get('VERIF_CROSSCHECK_JOB', '90') or 90)]   # cvc5 seconds per job (process-cumulative)
 NORMALISE = [True]   # identify function applications whose arguments are equal as rational functions (normal.py)
 USE_UF = [False]     # per-obligation switch: real uninterpreted functions (congruence) instead of one variable per
                      # syntactically distinct application (cheaper, sound for proving, weaker hypotheses)
@@ -429,9 +430,12 @@ def _check_once(claim, hyps, region_conds=(), timeout_ms=20000, want_model=True,
                 LAST_PROVED_SMT[0] = s.to_smt2()[:1800]
             except Exception:     # noqa: BLE001
                 pass
+        if CROSSCHECK[0] and STATS['cvc5_seconds'] > CROSS_JOB_BUDGET[0]:
+            return 'proved', 'z3(cvc5:job-budget-spent)', None
         if CROSSCHECK[0]:
             # thorough tier: every unsat is re-derived by a second, different back end (cvc5, cylindrical-algebraic
-            # coverings); a disagreement is a checker fault, a timeout leaves the verdict with z3 alone
+            # coverings) within CROSSCHECK seconds per leaf and CROSS_JOB_BUDGET seconds per job; a disagreement is a
+            # checker fault, a timeout leaves the verdict with z3 alone (counted separately in the evidence)
             r2 = _cvc5_check(s, timeout_s=CROSSCHECK[0])
             if r2 == 'unsat':
                 return 'proved', 'z3+cvc5', None
